@@ -138,7 +138,9 @@ REG['C10'] = dict(
          'decided by proof: the same clauses for CURVED baselines (fitted curve, normals), shift equivariance in floating point '
          '(polyfit, splines, atan2, arc length, cv2 fixed-point) - judged only by a geometric oracle on the real output. Degenerate lines '
          '(vertical, point, one pixel, zero heights given as Python numbers, float/int ndarrays or NumPy scalars; directly and through the '
-         'real LineCropper stage) must give an image of the configured height and never an error.',
+         'real LineCropper stage) must give an image of the configured height and never an error. The degree np.polyfit is called with for INTERP > 0 is REGENERATED from the live call for INTERP 1..4 x 3..5 points '
+         '(cfg_fit_degree: it is fitDegree = min(INTERP, points - 1)) and is always determined by the points (fit_determined) - the obligation breaks '
+         'when the cap of the fix decbd4e is removed.',
     note='Trusted: cv2.remap is bilinear sampling with constant border (model vs cv2 within one grey level at 1/32-px coordinates); '
          'SciPy interp1d, NumPy polyfit/linspace; float rounding.',
     technique='Lean 4 proof (floor/convexity arguments over Q) over a model with a generated flag + geometric oracle (partial)',
